@@ -59,6 +59,11 @@ CHECKS = {
          "The decision space (position x group x force field x pH side per key) is finite and enumerated completely: TLC checks WithinSupport on the guard table against Supported (re-extracted from the DAT/names files on every run by naming the state in the input), and each cell is executed on a generated tripeptide; applied patches, warnings, final force-field name and presence in the output are judged by TLC (ProtonatedIffBelow, UnsupportedKeepsDefault, UnsupportedWarns, NoResidueDropped); PROPKA sweeps over pH 0..14 check charge monotonicity, no residue dropped and terminus titration.",
          "pKa table injection replaces main.run_propka at run time; terminus keys are supplied in the form apply_pka_values expects; sweeps use three to five inputs; user-supplied force fields are outside the property's quantifier.",
          "DESIGN.md 6/C06", ["Titration", "TitrationTrace"]),
+ "C15": ("model_checking",
+         "TLA+ spec Rigid (placement contract in exact integer arithmetic over integer quaternions): TLC enumerates every rotation x template x translation with its exact image; every case executed on the real quatfit.find_coordinates; TLC trace validation (RigidTrace) of placements (2e-6 A) and of torsion changes (set_dihedral_angle, rotate_tetrahedral, qchichange) re-measured independently",
+         "TLC generates every case of the rational rotation family (entries -2..2 quick, -3..3 thorough) with thin, obtuse and four-point reference sets and translations up to 1e5 A, checks that the contract's matrices are proper rotations, and judges N x the real result against the exact integer image, which also decides mirror images and equivariance; every dihedral of every residue type is driven through angle sequences with differences beyond +-180 degrees and judged on the re-measured torsion (0.05 deg), unchanged distances to the axis atoms and unmoved other atoms.",
+         "Rotations are a dense rational subset of SO(3), not all of it; collinear references excluded; re-measurement is numpy code in the harness; Jacobi convergence on ill-conditioned inputs not decided.",
+         "DESIGN.md 6/C15", ["Rigid", "MC_Rigid", "RigidTrace"]),
 }
 
 NOT_YET = "check not built yet (build round in progress); planned per DESIGN.md section 6"
